@@ -274,3 +274,218 @@ Proof.
     intros k Hk. destruct k as [|k']; [reflexivity|]. cbn [spec_iter]. fold cpu1. rewrite I6 by lia. exact S5.
 Qed.
 End CPxR.
+
+(* ================================================================== OTIR / OTDR and INIR / INDR as whole operations ========
+   The counter is B alone (256 elements for B = 0); the port is C. *)
+Lemma de_otir : decode_ed 179 = BLOCK BOUT false true. Proof. vm_compute. reflexivity. Qed.
+Lemma de_otdr : decode_ed 187 = BLOCK BOUT true true. Proof. vm_compute. reflexivity. Qed.
+Lemma de_inir : decode_ed 178 = BLOCK BIN false true. Proof. vm_compute. reflexivity. Qed.
+Lemma de_indr : decode_ed 186 = BLOCK BIN true true. Proof. vm_compute. reflexivity. Qed.
+(* port writes recorded in a trace, newest first *)
+Fixpoint couts (tr : list event) : list (Z * Z) :=
+  match tr with [] => [] | EvOut p v :: t => (p, v) :: couts t | _ :: t => couts t end.
+
+Section IOxR.
+Variable u : Unspec.
+Variable dec : bool.
+Definition on_ioxr (o2 : Z) (cpu : CPU) : Prop :=
+  g_Memory cpu = UserMem /\ g_Interrupt cpu = None /\ g_IO cpu = true /\
+  u8 (ram (g_W cpu) (g_PC cpu)) = 237 /\ u8 (ram (g_W cpu) (inc16 (g_PC cpu))) = o2.
+Definition op2o : Z := if dec then 187 else 179.
+Definition op2i : Z := if dec then 186 else 178.
+
+Lemma step_at_ioxr (k : blk) o2 cpu : (k = BOUT /\ o2 = op2o) \/ (k = BIN /\ o2 = op2i) -> on_ioxr o2 cpu ->
+  spec_step u cpu = exec u MHL (BLOCK k dec true) (fst (fetch_m1 (fst (fetch_m1 cpu)))).
+Proof.
+  intros Hk (Hm & Hi & _ & H0 & H1). open_cpu cpu.
+  cbv_struct_in Hm. cbv_struct_in Hi. cbv_struct_in H0. cbv_struct_in H1. subst mem irq.
+  unfold spec_step, step_instr. cbv_struct.
+  cbv beta iota zeta delta [fetch_m1 fetch8 rd mem_get wget w_log]. cbv_struct. unfold inc16 in *.
+  rewrite H0. rewrite dm_ed. cbv_struct. rewrite H1.
+  destruct Hk as [[-> ->]|[-> ->]]; unfold op2o, op2i; destruct dec;
+    rewrite ?de_otdr, ?de_otir, ?de_indr, ?de_inir; reflexivity.
+Qed.
+Lemma fetch2_io cpu : g_IO (fst (fetch_m1 (fst (fetch_m1 cpu)))) = g_IO cpu /\
+  inputs (g_W (fst (fetch_m1 (fst (fetch_m1 cpu))))) = inputs (g_W cpu) /\
+  couts (trace (g_W (fst (fetch_m1 (fst (fetch_m1 cpu)))))) = couts (trace (g_W cpu)).
+Proof.
+  open_cpu cpu. cbv beta iota zeta delta [fetch_m1 fetch8 rd mem_get]. cbv_struct.
+  destruct mem as [|d0].
+  - cbv beta iota zeta delta [wget w_log]. cbv_struct. repeat split.
+  - repeat split; cbv beta iota zeta delta [wget w_log]; cbv_struct;
+      repeat match goal with |- context [if ?c then _ else _] => destruct c end; cbv_struct; reflexivity.
+Qed.
+
+(* one element of OUTI/OUTD, everything that matters *)
+Lemma out_element cpu : g_IO cpu = true -> g_Memory cpu = UserMem ->
+  let hl := regw (g_HL cpu) in let v := u8 (ram (g_W cpu) hl) in
+  let cpu' := block_step u BOUT dec cpu in
+  g_HL cpu' = wreg (bstep dec hl) /\ g_BC_Hi cpu' = u8 (g_BC_Hi cpu - 1) /\ g_BC_Lo cpu' = g_BC_Lo cpu /\
+  ram (g_W cpu') = ram (g_W cpu) /\ couts (trace (g_W cpu')) = (g_BC_Lo cpu, v) :: couts (trace (g_W cpu)) /\
+  inputs (g_W cpu') = inputs (g_W cpu) /\ g_PC cpu' = g_PC cpu /\ g_IO cpu' = true.
+Proof.
+  intros E Em. user_mem cpu E. cbv_struct_in Em. subst. unfold bstep. destruct dec; log_norm; cbn [couts]; repeat split.
+Qed.
+
+Lemma otxr_one cpu : is16 (g_PC cpu) -> on_ioxr op2o cpu ->
+  let hl := regw (g_HL cpu) in let v := u8 (ram (g_W cpu) hl) in let b' := u8 (g_BC_Hi cpu - 1) in
+  let cpu' := spec_step u cpu in
+  regw (g_HL cpu') = bstep dec hl /\ g_BC_Hi cpu' = b' /\ g_BC_Lo cpu' = g_BC_Lo cpu /\
+  ram (g_W cpu') = ram (g_W cpu) /\ couts (trace (g_W cpu')) = (g_BC_Lo cpu, v) :: couts (trace (g_W cpu)) /\
+  g_PC cpu' = (if b' =? 0 then u16 (g_PC cpu + 2) else g_PC cpu) /\
+  g_Memory cpu' = UserMem /\ g_Interrupt cpu' = None /\ g_IO cpu' = true.
+Proof.
+  intros Hpc Hon. cbv zeta. rewrite (step_at_ioxr BOUT op2o cpu (or_introl (conj eq_refl eq_refl)) Hon).
+  destruct Hon as (Hm & Hi & Hio & _ & _).
+  destruct (fetch2_facts cpu Hm) as (Eg & Er & Ep & Em & Ei). destruct (fetch2_io cpu) as (Eio & Einp & Eco).
+  set (c2 := fst (fetch_m1 (fst (fetch_m1 cpu)))) in *.
+  change (exec u MHL (BLOCK BOUT dec true) c2)
+    with (let c3 := block_step u BOUT dec c2 in if true && block_again BOUT c3 then rewind2 c3 else c3).
+  cbv zeta. destruct (out_element c2 ltac:(congruence) Em) as (E1 & E2 & E3 & E4 & E5 & _ & E7 & E8).
+  destruct (block_step_env u dec BOUT c2) as [Em3 Ei3].
+  set (c3 := block_step u BOUT dec c2) in *.
+  assert (Ehl : g_HL c2 = g_HL cpu) by (change (g_HL c2) with (GPR_HL (g_GPR c2)); rewrite Eg; reflexivity).
+  assert (Ebh : g_BC_Hi c2 = g_BC_Hi cpu) by (change (g_BC_Hi c2) with (Register_Hi (GPR_BC (g_GPR c2))); rewrite Eg; reflexivity).
+  assert (Ebl : g_BC_Lo c2 = g_BC_Lo cpu) by (change (g_BC_Lo c2) with (Register_Lo (GPR_BC (g_GPR c2))); rewrite Eg; reflexivity).
+  rewrite Ehl, Ebh, Ebl, Er, Eco in *.
+  assert (Rhl : regw (g_HL c3) = bstep dec (regw (g_HL cpu))).
+  { rewrite E1. apply regw_wreg. unfold bstep. destruct dec; apply is16_u16. }
+  cbn [andb]. unfold block_again. rewrite E2.
+  destruct (u8 (g_BC_Hi cpu - 1) =? 0) eqn:Ez; cbn [negb].
+  - repeat split; try assumption; try congruence.
+  - unfold rewind2.
+    change (g_HL (s_PC c3 ?v)) with (g_HL c3). change (g_BC_Hi (s_PC c3 ?v)) with (g_BC_Hi c3). change (g_BC_Lo (s_PC c3 ?v)) with (g_BC_Lo c3).
+    change (g_W (s_PC c3 ?v)) with (g_W c3). change (g_IO (s_PC c3 ?v)) with (g_IO c3).
+    change (g_Memory (s_PC c3 ?v)) with (g_Memory c3). change (g_Interrupt (s_PC c3 ?v)) with (g_Interrupt c3).
+    change (g_PC (s_PC c3 ?v)) with v.
+    repeat split; try assumption; try congruence.
+    rewrite E7, Ep. rewrite u16_sub_u16_l. replace (g_PC cpu + 2 - 2) with (g_PC cpu) by lia. apply u16_id, Hpc.
+Qed.
+
+(* the bytes sent, oldest first: the memory bytes at HL, HL+-1, ... *)
+Fixpoint sent (n : nat) (r : Z -> Z) (hl : Z) : list Z :=
+  match n with O => [] | S k => u8 (r hl) :: sent k r (bstep dec hl) end.
+(* the whole operation: n = B (256 for 0) bytes of memory go to port C in order; B ends 0; memory is not written *)
+Theorem otxr_run : forall (n : nat) cpu, WF cpu -> on_ioxr op2o cpu ->
+  1 <= Z.of_nat n <= 256 -> g_BC_Hi cpu = u8 (Z.of_nat n) ->
+  let cpu' := spec_iter u n cpu in
+  regw (g_HL cpu') = biter dec n (regw (g_HL cpu)) /\ g_BC_Hi cpu' = 0 /\ g_BC_Lo cpu' = g_BC_Lo cpu /\
+  ram (g_W cpu') = ram (g_W cpu) /\
+  couts (trace (g_W cpu')) = rev (map (fun v => (g_BC_Lo cpu, v)) (sent n (ram (g_W cpu)) (regw (g_HL cpu)))) ++ couts (trace (g_W cpu)) /\
+  g_PC cpu' = u16 (g_PC cpu + 2) /\
+  (forall k, (k < n)%nat -> g_PC (spec_iter u k cpu) = g_PC cpu).
+Proof.
+  induction n as [|m IH]; intros cpu Hwf Hon Hn Hb; [lia|].
+  assert (Hpc : is16 (g_PC cpu)) by (pose proof Hwf as H'; wf_open H'; assumption).
+  destruct (otxr_one cpu Hpc Hon) as (S1 & S2 & S3 & S4 & S5 & S6 & S7 & S8 & S9).
+  cbv zeta. cbn [spec_iter]. set (cpu1 := spec_step u cpu) in *.
+  assert (Eb : u8 (g_BC_Hi cpu - 1) = u8 (Z.of_nat m)).
+  { rewrite Hb, !u8_mod, Zminus_mod_idemp_l. f_equal. lia. }
+  rewrite Eb in S2, S6.
+  destruct m as [|m'].
+  - change (u8 (Z.of_nat 0)) with 0 in *. change (0 =? 0) with true in S6. cbv iota in S6.
+    cbn [spec_iter biter sent map rev app].
+    repeat split; try assumption.
+    intros k Hk. assert (k = 0)%nat by lia. subst k. reflexivity.
+  - assert (Hnz : u8 (Z.of_nat (S m')) =? 0 = false) by (apply Z.eqb_neq; rewrite u8_id by lia; lia).
+    rewrite Hnz in S6.
+    assert (Hon1 : on_ioxr op2o cpu1).
+    { destruct Hon as (_ & _ & _ & H0 & H1). unfold on_ioxr. rewrite S4, S6. repeat split; assumption. }
+    assert (Hwf1 : WF cpu1) by (apply spec_step_wf, Hwf).
+    specialize (IH cpu1 Hwf1 Hon1 ltac:(lia) S2). cbv zeta in IH. destruct IH as (I1 & I2 & I3 & I4 & I5 & I6 & I7).
+    rewrite S1 in I1. rewrite S3 in I3, I5. rewrite S4 in I4, I5. rewrite S1, S5 in I5. rewrite S6 in I6.
+    cbn [biter sent map rev].
+    repeat split; try assumption; try congruence.
+    + rewrite I5. rewrite <- app_assoc. reflexivity.
+    + intros k Hk. destruct k as [|k']; [reflexivity|]. cbn [spec_iter]. fold cpu1. rewrite I7 by lia. exact S6.
+Qed.
+
+(* ---- INIR / INDR ---- *)
+Lemma in_element cpu : g_IO cpu = true -> g_Memory cpu = UserMem ->
+  let hl := regw (g_HL cpu) in let v := u8 (hd 0 (inputs (g_W cpu))) in
+  let cpu' := block_step u BIN dec cpu in
+  g_HL cpu' = wreg (bstep dec hl) /\ g_BC_Hi cpu' = u8 (g_BC_Hi cpu - 1) /\ g_BC_Lo cpu' = g_BC_Lo cpu /\
+  ram (g_W cpu') = upd (ram (g_W cpu)) hl v /\ couts (trace (g_W cpu')) = couts (trace (g_W cpu)) /\
+  inputs (g_W cpu') = tl (inputs (g_W cpu)) /\ g_PC cpu' = g_PC cpu /\ g_IO cpu' = true.
+Proof.
+  intros E Em. user_mem cpu E. cbv_struct_in Em. subst. unfold bstep. destruct dec; log_norm; cbn [couts]; repeat split.
+Qed.
+Lemma inxr_one cpu : is16 (g_PC cpu) -> on_ioxr op2i cpu ->
+  let hl := regw (g_HL cpu) in let v := u8 (hd 0 (inputs (g_W cpu))) in let b' := u8 (g_BC_Hi cpu - 1) in
+  let cpu' := spec_step u cpu in
+  regw (g_HL cpu') = bstep dec hl /\ g_BC_Hi cpu' = b' /\ g_BC_Lo cpu' = g_BC_Lo cpu /\
+  ram (g_W cpu') = upd (ram (g_W cpu)) hl v /\ inputs (g_W cpu') = tl (inputs (g_W cpu)) /\
+  g_PC cpu' = (if b' =? 0 then u16 (g_PC cpu + 2) else g_PC cpu) /\
+  g_Memory cpu' = UserMem /\ g_Interrupt cpu' = None /\ g_IO cpu' = true.
+Proof.
+  intros Hpc Hon. cbv zeta. rewrite (step_at_ioxr BIN op2i cpu (or_intror (conj eq_refl eq_refl)) Hon).
+  destruct Hon as (Hm & Hi & Hio & _ & _).
+  destruct (fetch2_facts cpu Hm) as (Eg & Er & Ep & Em & Ei). destruct (fetch2_io cpu) as (Eio & Einp & Eco).
+  set (c2 := fst (fetch_m1 (fst (fetch_m1 cpu)))) in *.
+  change (exec u MHL (BLOCK BIN dec true) c2)
+    with (let c3 := block_step u BIN dec c2 in if true && block_again BIN c3 then rewind2 c3 else c3).
+  cbv zeta. destruct (in_element c2 ltac:(congruence) Em) as (E1 & E2 & E3 & E4 & _ & E6 & E7 & E8).
+  destruct (block_step_env u dec BIN c2) as [Em3 Ei3].
+  set (c3 := block_step u BIN dec c2) in *.
+  assert (Ehl : g_HL c2 = g_HL cpu) by (change (g_HL c2) with (GPR_HL (g_GPR c2)); rewrite Eg; reflexivity).
+  assert (Ebh : g_BC_Hi c2 = g_BC_Hi cpu) by (change (g_BC_Hi c2) with (Register_Hi (GPR_BC (g_GPR c2))); rewrite Eg; reflexivity).
+  assert (Ebl : g_BC_Lo c2 = g_BC_Lo cpu) by (change (g_BC_Lo c2) with (Register_Lo (GPR_BC (g_GPR c2))); rewrite Eg; reflexivity).
+  rewrite Ehl, Ebh, Ebl, Er, Einp in *.
+  assert (Rhl : regw (g_HL c3) = bstep dec (regw (g_HL cpu))).
+  { rewrite E1. apply regw_wreg. unfold bstep. destruct dec; apply is16_u16. }
+  cbn [andb]. unfold block_again. rewrite E2.
+  destruct (u8 (g_BC_Hi cpu - 1) =? 0) eqn:Ez; cbn [negb].
+  - repeat split; try assumption; try congruence.
+  - unfold rewind2.
+    change (g_HL (s_PC c3 ?v)) with (g_HL c3). change (g_BC_Hi (s_PC c3 ?v)) with (g_BC_Hi c3). change (g_BC_Lo (s_PC c3 ?v)) with (g_BC_Lo c3).
+    change (g_W (s_PC c3 ?v)) with (g_W c3). change (g_IO (s_PC c3 ?v)) with (g_IO c3).
+    change (g_Memory (s_PC c3 ?v)) with (g_Memory c3). change (g_Interrupt (s_PC c3 ?v)) with (g_Interrupt c3).
+    change (g_PC (s_PC c3 ?v)) with v.
+    repeat split; try assumption; try congruence.
+    rewrite E7, Ep. rewrite u16_sub_u16_l. replace (g_PC cpu + 2 - 2) with (g_PC cpu) by lia. apply u16_id, Hpc.
+Qed.
+(* the bytes the device supplies go to memory at HL, HL+-1, ... one after the other *)
+Fixpoint fill (n : nat) (r : Z -> Z) (hl : Z) (inp : list Z) : Z -> Z :=
+  match n with O => r | S k => fill k (upd r hl (u8 (hd 0 inp))) (bstep dec hl) (tl inp) end.
+Theorem inxr_run : forall (n : nat) cpu, WF cpu -> on_ioxr op2i cpu ->
+  1 <= Z.of_nat n <= 256 -> g_BC_Hi cpu = u8 (Z.of_nat n) ->
+  (forall j, (j < n)%nat -> biter dec j (regw (g_HL cpu)) <> g_PC cpu /\ biter dec j (regw (g_HL cpu)) <> inc16 (g_PC cpu)) ->
+  let cpu' := spec_iter u n cpu in
+  regw (g_HL cpu') = biter dec n (regw (g_HL cpu)) /\ g_BC_Hi cpu' = 0 /\ g_BC_Lo cpu' = g_BC_Lo cpu /\
+  ram (g_W cpu') = fill n (ram (g_W cpu)) (regw (g_HL cpu)) (inputs (g_W cpu)) /\
+  inputs (g_W cpu') = skipn n (inputs (g_W cpu)) /\
+  g_PC cpu' = u16 (g_PC cpu + 2) /\
+  (forall k, (k < n)%nat -> g_PC (spec_iter u k cpu) = g_PC cpu).
+Proof.
+  induction n as [|m IH]; intros cpu Hwf Hon Hn Hb Hdst; [lia|].
+  assert (Hpc : is16 (g_PC cpu)) by (pose proof Hwf as H'; wf_open H'; assumption).
+  destruct (inxr_one cpu Hpc Hon) as (S1 & S2 & S3 & S4 & S5 & S6 & S7 & S8 & S9).
+  cbv zeta. cbn [spec_iter]. set (cpu1 := spec_step u cpu) in *.
+  assert (Eb : u8 (g_BC_Hi cpu - 1) = u8 (Z.of_nat m)).
+  { rewrite Hb, !u8_mod, Zminus_mod_idemp_l. f_equal. lia. }
+  rewrite Eb in S2, S6.
+  assert (Hsk : forall (l : list Z), skipn 1 l = tl l) by (intros [|x l]; reflexivity).
+  destruct m as [|m'].
+  - change (u8 (Z.of_nat 0)) with 0 in *. change (0 =? 0) with true in S6. cbv iota in S6.
+    cbn [spec_iter biter fill]. rewrite Hsk.
+    repeat split; try assumption.
+    intros k Hk. assert (k = 0)%nat by lia. subst k. reflexivity.
+  - assert (Hnz : u8 (Z.of_nat (S m')) =? 0 = false) by (apply Z.eqb_neq; rewrite u8_id by lia; lia).
+    rewrite Hnz in S6.
+    destruct (Hdst 0%nat ltac:(lia)) as [D0 D1]. cbn [biter] in D0, D1.
+    assert (Hon1 : on_ioxr op2i cpu1).
+    { destruct Hon as (_ & _ & _ & H0 & H1). unfold on_ioxr. rewrite S4, S6.
+      repeat split; try assumption; rewrite upd_other by congruence; assumption. }
+    assert (Hwf1 : WF cpu1) by (apply spec_step_wf, Hwf).
+    specialize (IH cpu1 Hwf1 Hon1 ltac:(lia) S2).
+    assert (Hdst1 : forall j, (j < S m')%nat ->
+              biter dec j (regw (g_HL cpu1)) <> g_PC cpu1 /\ biter dec j (regw (g_HL cpu1)) <> inc16 (g_PC cpu1)).
+    { intros j Hj. rewrite S1, S6. change (biter dec j (bstep dec (regw (g_HL cpu)))) with (biter dec (S j) (regw (g_HL cpu))). apply Hdst. lia. }
+    specialize (IH Hdst1). cbv zeta in IH. destruct IH as (I1 & I2 & I3 & I4 & I5 & I6 & I7).
+    rewrite S1 in I1. rewrite S3 in I3. rewrite S4, S1, S5 in I4. rewrite S5 in I5. rewrite S6 in I6.
+    cbn [biter fill].
+    repeat split; try assumption.
+    + rewrite I5. destruct (inputs (g_W cpu)); reflexivity.
+    + intros k Hk. destruct k as [|k']; [reflexivity|]. cbn [spec_iter]. fold cpu1. rewrite I7 by lia. exact S6.
+Qed.
+End IOxR.
